@@ -264,6 +264,17 @@ Definition final_clauses (nt : net) (fin : tree) : list tree :=
   | _ => []
   end%Z.
 
+(* (18,8): Execute has returned although no source incarnation has returned nil from Start: a source that ended with an
+   error was not restarted (theorem returned_needs_nil_end).  On a snapshot: main code <> 0 and the source not shown as
+   ended by nil. *)
+Definition returned_without_nil (snap : tree) : bool :=
+  match snap with
+  | T [_; L m; src] => negb (m =? 0)%Z && negb (tree_eqb src (T [L 2; L 0]))
+  | _ => false
+  end.
+Definition c18_return_clauses (snaps : list tree) : list tree :=
+  if existsb returned_without_nil snaps then [clause 18 8 []] else [].
+
 Definition main_blocked (s : state) : bool := match mn s with MDeliver _ _ => true | _ => false end.
 
 Definition judge_lock (ti tobs : tree) : tree :=
@@ -279,7 +290,8 @@ Definition judge_lock (ti tobs : tree) : tree :=
       let last := last snaps snap0 in
       let clauses := (match last with T [T ns; _; _] => flat_map lock_clauses_node ns | _ => [] end)
                      ++ c17_clauses (li_T i) out snaps waits (main_blocked (st p))
-                     ++ final_clauses nt fin in
+                     ++ final_clauses nt fin
+                     ++ c18_return_clauses (snaps ++ match fin with T [sn; _] => [sn] | _ => [] end) in
       verdict (dedup diffs) clauses (T [enc_net nt; s0; ofList (fun cs => snd cs) out])
               (dedup (flat_map (fun cs => tag_of_cmd (fst cs)) out)
                ++ (if stopped p then [5] else []) ++ (if bad p then [6] else [])
@@ -333,7 +345,9 @@ Definition judge_free (ti tobs : tree) : tree :=
                                     end) (combine (seq 0 (length ctrs)) ctrs) in
               (* (17,2)/(3,8): every harness node returns from every call, so the run must end by the clean return of
                  Execute, not by the shutdown timeout (theorem C03_every_run_ends_clean) *)
-              let clean_clause := if clean then [] else [clause 17 2 []; clause 3 8 []] in
+              let clean_clause := (if clean then [] else [clause 17 2 []; clause 3 8 []])
+                                  ++ (if existsb (fun e => match e with TDone _ => true | _ => false end) p && negb (any_nil_end p)
+                                      then [clause 18 8 []] else []) in
               let stall_clause := clean_clause ++ full_clause ++ (if stall_ok =? 0 then [clause 4 3 []] else []) ++ (if cut <? 0 then [] else stall_acct) in
               verdict (diff_if (tree_eqb (enc_net nt) netdump) 1) (map enc_pc (flat_map also_c16 fails) ++ stall_clause) (enc_net nt)
                       ((if clean then [30] else [31])
